@@ -186,7 +186,9 @@ PROPS = {
     "C07": res(_R, extra_probes=["capacity_query", "capacity_unlimited"]),
     "C08": res(_R, extra_probes=["rollback_alloc_ok", "rollback_realloc_ok", "release_ok", "alloc_injected_failure"]),
     "C15": res(_R, extra_probes=["c15_corrupted", "c15_fix_reported_diffs"]),
-    "C32": res(_R, extra_probes=["remap_unbound_workload", "remap_no_free_core"]),
+    "C32": res(_R + " Half of the workers run the whole-system harness instead (" + _C + "after every operation that changed CPU bindings on a node the cores pushed to the engine for every unbound workload on it are compared with the cores that have a full free share; one injected failure per history, sampled / swept);",
+               extra_probes=["remap_unbound_workload", "remap_no_free_core", "c32_remap_checked"], harnesses=["res", "cluster"], sweep_only=["cluster"],
+               quick={"seconds": 35, "runs": 24000, "sweep": "err:3"}, thorough={"seconds": 900, "runs": 4000000, "sweep": "err:all"}),
     "C33": res(_R, extra_probes=["c33_nochange_realloc"]),
 }
 
